@@ -28,7 +28,7 @@ type SQLStmt struct {
 	Limit    bool
 	Where    string
 	From     string // source table of INSERT ... SELECT / first FROM of a SELECT
-	Unres    bool // contains an unresolved hole in a structural position
+	Unres    bool   // contains an unresolved hole in a structural position
 	ArgsOf   ssa.CallInstruction
 }
 
@@ -44,7 +44,7 @@ type SQLTable struct {
 	Name    string
 	Cols    []string
 	ColDef  map[string]string
-	Uniques [][]string // includes primary keys
+	Uniques [][]string        // includes primary keys
 	Checks  map[string]string // column -> check expression
 	RowID   string            // INTEGER PRIMARY KEY alias
 	Src     string
